@@ -113,6 +113,8 @@ func c04(c *Ctx) {
 	// the container-ID guard compares with the latest ADD: every acknowledged ADD rewrites the record (shared rule)
 	c05R1(c)
 	c03R8(c)
+	// after a restart the pool knows a pod's address under the key every request uses (shared rule)
+	c05R4(c)
 }
 
 // pendingField is networkService.pendingPods
